@@ -93,8 +93,10 @@ def power_scalar(inp):
 
 def gen_power_array(tier, rng):
     shapes = [(), (1,), (2,), (1, 2), (2, 1), (2, 2)]
+    # 3-d operands: the .T / newaxis recursion of power behaves differently from 3 dimensions on (axes get permuted)
+    shapes += [(2, 3, 1), (1, 3, 1), (2, 1, 2)]
     if tier == "thorough":
-        shapes += [(1, 1, 2), (2, 1, 2), (2, 2, 1), (1, 2, 2)]
+        shapes += [(1, 1, 2), (2, 2, 1), (1, 2, 2), (3, 1, 2), (2, 3, 2)]
     for s1 in shapes:
         for s2 in shapes:
             try:
